@@ -1,7 +1,7 @@
 (* Functions used only by the correspondence check harness/c08.py. *)
 From Coq Require Import ZArith List Bool String.
 From Common Require Import Str Res Cases.
-From Rpc Require Import Json Models.
+From Rpc Require Import Json Models Events.
 Import ListNotations.
 Open Scope Z_scope.
 
@@ -74,3 +74,13 @@ Definition event_case_ok (c : model * json) : bool :=
 
 Definition state_case_ok (c : model * json) : bool :=
   let '(m, j) := c in json_equiv_sets (state_file_json m) j.
+
+Definition event_msg_ok (c : event * json) : bool :=
+  let '(e, msg) := c in json_equiv_sets (encode_event true e) msg.
+
+Definition event_decode_ok (c : event * json) : bool :=
+  let '(e, msg) := c in
+  match decode_event lax_int_corr msg with
+  | Ok e' => json_eqb (encode_event true e') (encode_event true e)
+  | _ => false
+  end.
